@@ -699,8 +699,9 @@ fn is_branch(i: usize) -> bool {
 /// `j` is said to fall inside the tree if `j < n`.
 #[inline]
 fn is_leaf_index_in_tree(i: usize, n: usize) -> bool {
-    let j = leaf_index_to_tree_index(i);
-    is_tree_index_in_tree(j, n)
+    // a leaf index whose tree index overflows cannot be part of any tree
+    i.checked_mul(2)
+        .is_some_and(|j| is_tree_index_in_tree(j, n))
 }
 
 /// Returns if a tree index `i` is part of  tree.
